@@ -288,7 +288,7 @@ func (s *Scanner) scanNumber(seenDecimalPoint bool) (token.Token, string) {
 		} else {
 			// 0 or float
 			seenDigits := false
-			if s.ch >= '0' && s.ch <= '9' {
+			if digitVal(s.ch) < 10 { // a digit or an interstitial '_'
 				seenDigits = true
 				s.scanMantissa(10)
 			}
